@@ -381,6 +381,35 @@ def validate(text):
                 if u not in seen_types:
                     errors.append("function $%s: type :%s is used before it is defined" % (f.name, u))
             check_func(mod, f, errors)
+    # 7b. a global is referenced with the `thread` marker exactly if it is thread-local data (consistently across the module,
+    #     and in agreement with its definition when the module defines it)
+    tls_def = {d.name: bool(d.thread) for d in mod.data}
+    seen_ref = {}
+    for f in mod.funcs:
+        for b in f.blocks:
+            vals = []
+            for ins in b.insts:
+                vals.extend(ins.args)
+                vals.extend(v for _, v in (ins.cargs or []))
+            for p_ in b.phis:
+                vals.extend(v for _, v in p_.args)
+            if b.jump and len(b.jump) > 1 and b.jump[1] is not None and hasattr(b.jump[1], "kind"):
+                vals.append(b.jump[1])
+            for v in vals:
+                if getattr(v, "kind", None) != "glo":
+                    continue
+                th = bool(getattr(v, "thread", False))
+                if v.v in tls_def and tls_def[v.v] != th:
+                    errors.append("function $%s: $%s is %sthread-local data but is referenced %s the thread marker"
+                                  % (f.name, v.v, "" if tls_def[v.v] else "not ", "without" if tls_def[v.v] else "with"))
+                elif v.v in funcs and th:
+                    errors.append("function $%s: function $%s referenced with the thread marker" % (f.name, v.v))
+                elif seen_ref.setdefault(v.v, th) != th:
+                    errors.append("function $%s: $%s is referenced both with and without the thread marker" % (f.name, v.v))
+    for d in mod.data:
+        for it in d.items:
+            if it.kind == "sym" and it.sym in tls_def and tls_def[it.sym] != bool(it.thread):
+                errors.append("data $%s: address of $%s with inconsistent thread marker" % (d.name, it.sym))
     # 8. calls to functions defined in this module agree with the definition
     for f in mod.funcs:
         for b in f.blocks:
